@@ -1269,7 +1269,9 @@ class Engine:
                 return
             n += 1
             if n > self.loop_bound:
-                raise OutOfSubset('while loop exceeds unwinding bound %d' % self.loop_bound)
+                err = OutOfSubset('while loop exceeds unwinding bound %d' % self.loop_bound)
+                err.pc = list(self.path.pc)          # enclosing merge regions restore the path condition while this propagates
+                raise err
             try:
                 self.block(s.body, env, g)
             except _Break:
